@@ -373,6 +373,9 @@ func execute(s *engine.Script, o *engine.Outcome) {
 			}
 			// recycling overwrote bytes older values may still point into
 			check(fmt.Sprintf("op %d: buffer %d was recycled for a %s frame", i, b, ad.Name), "recycle")
+			// (a pristine private copy of what the transport wrote, taken before the
+			// library sees the buffer: twins and repeated parses use it)
+			pristine := append([]byte(nil), pool[b][off:end]...)
 			var res adapters.Result
 			if o.Guard("parse "+ad.Name, func() { res = ad.Parse(pool[b][off:end], ad.Arg(op.Shape)) }) {
 				copy(mirror[b], pool[b])
@@ -419,7 +422,7 @@ func execute(s *engine.Script, o *engine.Outcome) {
 			// parsed from a private copy of the same bytes
 			subject := lv.val
 			if twinBaseline {
-				private := append([]byte(nil), pool[b][off:end]...)
+				private := append([]byte(nil), pristine...)
 				var tr adapters.Result
 				if o.Guard("parse twin "+ad.Name, func() { tr = ad.Parse(private, ad.Arg(op.Shape)) }) || !tr.OK {
 					continue
@@ -430,7 +433,7 @@ func execute(s *engine.Script, o *engine.Outcome) {
 			again := func() {
 				// parsing is something the consumer keeps doing: it must not count as
 				// a change of the values it already holds
-				private := append([]byte(nil), pool[b][off:end]...)
+				private := append([]byte(nil), pristine...)
 				ad.Parse(private, ad.Arg(op.Shape))
 			}
 			if o.Guard("observe "+ad.Name, func() {
